@@ -488,9 +488,35 @@ func (g *Gen) absBytes(st *State, x Term) Term {
 	hN := g.define("Hb", h)
 	xN := g.define("bsx", x)
 	t := app(SBSeq, "bs_abs", hN, xN)
+	// frame/extensionality axiom: needed only once byte sequences are taken under two
+	// different heaps (or formal heaps of spec functions) in the same proof
+	g.noteAbsHeap(hN.S)
 	if g.noDefine > 0 {
 		return t // under a binder: the quantified ByteSeq axioms relate it to its content
 	}
+	return g.absNamed(st, t, xN)
+}
+
+// noteAbsHeap records a byte heap under which sequences are abstracted and adds the
+// frame/extensionality axiom as soon as two different actual heaps are involved.
+func (g *Gen) noteAbsHeap(name string) {
+	if strings.HasPrefix(name, "Hp_") {
+		return
+	}
+	if g.absHeaps == nil {
+		g.absHeaps = map[string]bool{}
+	}
+	g.absHeaps[name] = true
+	if len(g.absHeaps) > 1 && !g.declared["bs_fdiff"] {
+		g.declared["bs_fdiff"] = true
+		g.header = append(g.header,
+			"(declare-fun bs_fdiff ((Array Loc (_ BitVec 8)) (Array Loc (_ BitVec 8)) Slice Slice) (_ BitVec 64))",
+			"(assert (forall ((h1 (Array Loc (_ BitVec 8))) (h2 (Array Loc (_ BitVec 8))) (s1 Slice) (s2 Slice)) (! (or (= (bs_abs h1 s1) (bs_abs h2 s2)) (not (= (s_len s1) (s_len s2))) (and (bvult (bs_fdiff h1 h2 s1 s2) (s_len s1)) (not (= (select h1 (elem (s_arr s1) (bvadd (s_off s1) (bs_fdiff h1 h2 s1 s2)))) (select h2 (elem (s_arr s2) (bvadd (s_off s2) (bs_fdiff h1 h2 s1 s2)))))))) :pattern ((bs_abs h1 s1) (bs_abs h2 s2)))))")
+	}
+}
+
+// absNamed names an abstraction term by a fresh constant with its ground facts.
+func (g *Gen) absNamed(st *State, t Term, xN Term) Term {
 	key := t.S
 	if b, ok := g.absCache[key]; ok {
 		return b
